@@ -370,7 +370,11 @@ def run_verus_unit(name, prop, tier, keep=False):
 
 
 # --------------------------------------------------------------------------------------------- kani
-UNDECIDED_KANI = ("unwinding assertion", "unsupported", "not currently supported", "is not supported")
+# failure descriptions that are limits of the tool, not refutations: incomplete unwinding, unsupported constructs, and Kani's own
+# allocator-layout bookkeeping (trips on std's in-place `collect` specialisation)
+UNDECIDED_KANI = ("unwinding assertion", "unsupported", "not currently supported", "is not supported",
+                  "rust_dealloc must be called on an object whose allocated size matches its layout",
+                  "rust_realloc must be called on an object whose allocated size matches its layout")
 
 
 def run_kani(prop, tier, harnesses):
@@ -498,6 +502,11 @@ PROOF_ALTERNATIVES = [
      ["c20_hdr_valid_frontend", "c20_hdr_valid_backend", "c20_memory_valid", "c20_memory_region_valid", "c20_single_memory_region_valid",
       "c20_vring_addr_valid", "c20_config_valid", "c20_inflight_valid", "c20_log_valid", "c20_transfer_state_valid", "c20_shared_msg_valid",
       "c20_mmap_valid", "c20_unconstrained_validators"]),
+    # helpers of the backend request server whose whole contract is also a complete Kani proof on the real code
+    (r'^backend$', r'^update_reply_ack_flag$', r'postcondition', ["c04_update_reply_ack_flag"]),
+    (r'^backend$', r'^new_reply_header$', r'postcondition', ["c04_new_reply_header"]),
+    (r'^backend$', r'^check_request_size$', r'postcondition', ["c05_check_request_size"]),
+    (r'^backend$', r'^handle_vring_fd_request$', r'postcondition', ["c05_c09_handle_vring_fd_request"]),
 ]
 
 
